@@ -629,3 +629,41 @@ Proof.
   - cbn [capture]. unfold capture_here. rewrite strip_word_none by assumption.
     apply IH. simpl in Hg. now apply andb_true_iff in Hg as [_ Hg].
 Qed.
+
+(* ------------------------------------------------------------------ *)
+(* padding with blanks is undone by trim                              *)
+Lemma ltrim_ws_app l s : all_ws l = true -> ltrim (l ++ s) = ltrim s.
+Proof.
+  induction l; simpl; [reflexivity|]. unfold all_ws in *. simpl.
+  rewrite andb_true_iff. intros [Ha Hl]. rewrite Ha. now apply IHl.
+Qed.
+
+Lemma rtrim_ws r : all_ws r = true -> rtrim r = "".
+Proof.
+  induction r; simpl; [reflexivity|]. unfold all_ws in *. simpl.
+  rewrite andb_true_iff. intros [Ha Hr]. rewrite (IHr Hr), Ha. reflexivity.
+Qed.
+
+Lemma rtrim_app_ws s r :
+  clean s = true -> s <> "" -> all_ws r = true -> rtrim (s ++ r) = s.
+Proof.
+  induction s as [|a s IH]; [congruence|]. intros Hc _ Hr.
+  unfold clean in Hc. simpl in Hc. apply andb_true_iff in Hc as [Ha Hs].
+  change (String a s ++ r) with (String a (s ++ r)). cbn [rtrim].
+  destruct s as [|b s'].
+  - simpl. rewrite (rtrim_ws _ Hr), (clean_not_ws _ Ha). reflexivity.
+  - rewrite IH by (auto; discriminate). reflexivity.
+Qed.
+
+Lemma trim_padded l s r :
+  all_ws l = true -> all_ws r = true -> clean s = true -> s <> "" ->
+  trim (l ++ s ++ r) = s.
+Proof.
+  intros Hl Hr Hc Hn. unfold trim. rewrite ltrim_ws_app by assumption.
+  destruct s as [|a s']; [congruence|].
+  assert (Ha : is_ws a = false).
+  { unfold clean in Hc. simpl in Hc. apply andb_true_iff in Hc as [Ha _].
+    now apply clean_not_ws. }
+  change (String a s' ++ r) with (String a (s' ++ r)). cbn [ltrim]. rewrite Ha.
+  change (String a (s' ++ r)) with (String a s' ++ r). now apply rtrim_app_ws.
+Qed.
